@@ -234,9 +234,11 @@ def main():
     os.makedirs(a.out, exist_ok=True)
     for i, t in enumerate(traces):
         t["id"] = i + 1
-    shards = [[] for _ in range(a.shards)]
+    # (bounded files: the JSON reader behind TLC's Json module gives up on files of ~100 MB)
+    nsh = max(a.shards, (len(traces) + 3999) // 4000)
+    shards = [[] for _ in range(nsh)]
     for i, t in enumerate(traces):
-        shards[i % a.shards].append(t)
+        shards[i % nsh].append(t)
     for k, sh in enumerate(shards):
         with open(os.path.join(a.out, "sync_%s_%d.json" % (a.what, k)), "w") as f:
             json.dump(sh, f, separators=(",", ":"))
